@@ -30,6 +30,7 @@ ASSUMPTIONS = [
     'set_recipients_delivered is handed a list sorted highest-first, one marking round per message (for which the shipped and the d5/d6-fixed code write the same bytes; the Queue\'s set argument and multi-round marking are C15/C03 matters)',
     'each message is written once in a history (its id is not drawn again), updates address a written, not yet removed message',
     'aio_write writes the whole piece (no short writes); pickle round-trips (the effect-exact runs use the number codec nc_* in its place)',
+    'second fault mode "abort with unwinding": an exception (GreenletExit, or IOError(ENOSPC) reported by the aio_write callback) is raised in place of one file-system effect (or, overlapped histories, in every greenlet at its current effect), the code\'s except/finally clauses run with real effects, then the process counts as dead',
     'C04_queue_resumes (the fresh Queue re-schedules every recovered id) is left to the queue model (C12/C01)',
 ]
 
@@ -159,6 +160,16 @@ class Progress(object):
 
 
 # -------------------------------------------------------------------- streams
+def fail_after_abort(ctx, key, case, what):
+    """same oracle, but the process was stopped by exceptions whose cleanup code ran"""
+    c15.fail(ctx, key + '-after-aborted-operation', dict(case, fault='abort with unwinding'), what)
+
+
+def flat_cleanups(v):
+    """model: cleanup commands of every thread at a crash point, in thread order"""
+    return [x for th in v for x in th]
+
+
 def run_sequential(ctx, n_hist, codec, chunk, exception_runs):
     rng = ctx.rng
     fail = c15.fail
@@ -204,7 +215,7 @@ def run_sequential(ctx, n_hist, codec, chunk, exception_runs):
             disk.effect = orig_effect
             n = len(disk.log)
             case = dict(stream='sequential', codec=codec, chunk=chunk, threads=threads,
-                        order=[(j, o[0]) for j, o in order], junk=sorted(junk))
+                        order=[(j, o[0]) for j, o in order], junk=sorted(junk), junk_index=JUNK.index(junk))
             # ---- oracle at every crash point
             for k in range(n + 1):
                 prog.judge(ctx, k, recs[k], case, fail)
@@ -225,13 +236,16 @@ def run_sequential(ctx, n_hist, codec, chunk, exception_runs):
             mo = ctx.model.call('c04_crash_all', [[[enc_op(o) for o in t] for t in threads], eff_thread, IDS, chunk, enc_init(junk)])
             mlog = [(x[0], x[1]) for x in mo[0]]
             ilog = [(j, canon_eff(d)) for j, d in zip(eff_thread, disk.log)]
+            corr = True          # model and code agree so far; if not, the oracle-only search goes on
             if ilog != mlog:
                 d = next((i for i in range(min(len(ilog), len(mlog))) if ilog[i] != mlog[i]), min(len(ilog), len(mlog)))
                 ctx.mismatch('effects', dict(case, at=d), ilog[d:d + 3], mlog[d:d + 3])
-                continue
-            mrecs = [model_recover(v) for v in mo[1]]
+                corr = False
+            mrecs = [model_recover(v[0]) for v in mo[1]]
+            mabort = [model_recover(v[1]) for v in mo[1]]
+            mclean = [flat_cleanups(v[2]) for v in mo[1]]
             for k in range(n + 1):
-                if recs[k] != mrecs[k]:
+                if corr and recs[k] != mrecs[k]:
                     ctx.mismatch('recover', dict(case, crash_point=k), recs[k], mrecs[k])
                     break
             if len(ctx.samples) < 3:
@@ -253,17 +267,52 @@ def run_sequential(ctx, n_hist, codec, chunk, exception_runs):
                         rec2 = recover(ad2.disk, IDS)
                         ctx.count('crash-points:exception')
                         points += 1
+                        prog.judge(ctx, k, rec2, dict(case, crash_point=k, fault='exception at the effect, then dead'), fail)
                         if not crashed or rec2 != recs[k]:
                             ctx.mismatch('exception-crash', dict(case, crash_point=k, crashed=crashed), rec2, recs[k])
                             break
                     finally:
                         ad2.close()
+                # ---- (c) abort with unwinding: one exception at the k-th effect (GreenletExit, or ENOSPC
+                # out of aio_write), the code's own except/finally clauses run with real effects, then
+                # the process is gone
+                full_log = list(disk.log)
+                for k in range(n):
+                    if full_log[k][0] == 'close':
+                        continue
+                    ad3 = Adapter('disk', cfg)
+                    try:
+                        ad3.disk.install(junk)
+                        ad3.disk.abort_at = k
+                        ad3.disk.abort_mode = 'enospc' if (full_log[k][0] == 'write' and k % 2 == 0) else 'exit'
+                        try:
+                            for j, o in order:
+                                ad3.do(o, 'desc')
+                                if ad3.disk.aborted:
+                                    break
+                        except gevent.GreenletExit:
+                            pass
+                        rec3 = recover(ad3.disk, IDS)
+                        acase = dict(case, crash_point=k, abort=ad3.disk.abort_mode, at_effect=str(full_log[k][:3]))
+                        prog.judge(ctx, k, rec3, acase, fail_after_abort)
+                        ctx.evaluated(('abort-seq', tuple(map(tuple, threads)), tuple(j for j, _ in order), k, ad3.disk.abort_mode), nontrivial=True)
+                        ctx.count('abort-points:sequential:' + ad3.disk.abort_mode)
+                        points += 1
+                        tail = [canon_eff(d) for d in ad3.disk.log[k:]]
+                        if not corr:
+                            pass
+                        elif not ad3.disk.aborted or tail != mclean[k] or [canon_eff(d) for d in ad3.disk.log[:k]] != [e for _, e in ilog[:k]]:
+                            ctx.mismatch('abort-effects', acase, tail, mclean[k])
+                        elif rec3 != mabort[k]:
+                            ctx.mismatch('abort-recover', acase, rec3, mabort[k])
+                    finally:
+                        ad3.close()
         finally:
             ad.close()
     return points
 
 
-def run_overlapped(ctx, n_hist, chunk):
+def run_overlapped(ctx, n_hist, chunk, abort_every=1):
     """operations on different messages overlap effect by effect (gated greenlets);
     the scheduler looks at the directories between any two effects"""
     rng = ctx.rng
@@ -313,7 +362,8 @@ def run_overlapped(ctx, n_hist, chunk):
             stuck = [g for g in gs if not g.dead]
             sf.kill_all(gs)
             n = len(executed)
-            case = dict(stream='overlapped', chunk=chunk, threads=threads, schedule=[i for i, _ in executed], junk=sorted(junk))
+            case = dict(stream='overlapped', chunk=chunk, threads=threads, schedule=[i for i, _ in executed],
+                        junk=sorted(junk), junk_index=JUNK.index(junk))
             if stuck:
                 ctx.mismatch('overlapped-unfinished', case, len(stuck), 0)
                 continue
@@ -330,18 +380,52 @@ def run_overlapped(ctx, n_hist, chunk):
             mo = ctx.model.call('c04_crash_all', [[[enc_op(o) for o in t] for t in threads], [i for i, _ in executed], IDS, chunk, enc_init(junk)])
             mlog = [(x[0], x[1]) for x in mo[0]]
             ilog = [(i, canon_eff(d)) for i, d in executed]
+            corr = True
             if ilog != mlog:
                 d = next((i for i in range(min(len(ilog), len(mlog))) if ilog[i] != mlog[i]), min(len(ilog), len(mlog)))
                 ctx.mismatch('effects-overlapped', dict(case, at=d), ilog[d:d + 3], mlog[d:d + 3])
-                continue
-            mrecs = [model_recover(v) for v in mo[1]]
+                corr = False
+            mrecs = [model_recover(v[0]) for v in mo[1]]
+            mabort = [model_recover(v[1]) for v in mo[1]]
+            mclean = [flat_cleanups(v[2]) for v in mo[1]]
             for k in range(n + 1):
-                if recs[k] != mrecs[k]:
+                if corr and recs[k] != mrecs[k]:
                     ctx.mismatch('recover-overlapped', dict(case, crash_point=k), recs[k], mrecs[k])
                     break
             mres = [[dec_res(x) for x in t[0]] for t in mo[2]]
-            if mres != results:
+            if corr and mres != results:
                 ctx.mismatch('results-overlapped', case, results, mres)
+            # ---- the process is being stopped: after k effects every greenlet is killed (GreenletExit at
+            # its gate), the cleanup clauses of all operations in flight run, then a fresh instance looks
+            for k in range(0, n, abort_every):
+                gates2 = sf.Gates()
+                ad2 = Adapter('disk', dict(codec=True, chunk=chunk), gates=gates2)
+                try:
+                    ad2.disk.install(junk)
+
+                    def body2(j):
+                        def run():
+                            for o in threads[j]:
+                                ad2.do(o, 'desc')
+                        return run
+                    gs2, ex2 = sf.run_threads([body2(j) for j in range(nmsg)], [i for i, _ in executed[:k]], gates2)
+                    gates2.enabled = False
+                    sf.kill_all(gs2)
+                    rec2 = recover(ad2.disk, IDS)
+                    acase = dict(case, crash_point=k, abort='every greenlet killed')
+                    prog.judge(ctx, k, rec2, acase, fail_after_abort)
+                    ctx.evaluated(('abort-ovl', tuple(map(tuple, threads)), tuple(i for i, _ in executed[:k])), nontrivial=True)
+                    ctx.count('abort-points:overlapped')
+                    points += 1
+                    tail = [canon_eff(d) for d in ad2.disk.log[k:]]
+                    if not corr:
+                        pass
+                    elif len(ex2) != k or tail != mclean[k]:
+                        ctx.mismatch('abort-effects-overlapped', acase, tail, mclean[k])
+                    elif rec2 != mabort[k]:
+                        ctx.mismatch('abort-recover-overlapped', acase, rec2, mabort[k])
+                finally:
+                    ad2.close()
         finally:
             ad.close()
     return points
@@ -351,7 +435,7 @@ def run(ctx):
     q = ctx.quick
     c15._seen.clear()
     p1 = run_sequential(ctx, 14 if q else 300, True, ctx.rng.choice([5, 7, 11]), True)
-    p2 = run_overlapped(ctx, 12 if q else 300, 9)
+    p2 = run_overlapped(ctx, 12 if q else 300, 9, abort_every=2 if q else 3)
     p3 = run_sequential(ctx, 6 if q else 120, False, 64, False)
     stray = 0
     ctx.note('not judged: temp files of interrupted dumps stay in tmp_dir, an interrupted write() leaves an orphan '
@@ -375,6 +459,67 @@ def run(ctx):
 
 
 def replay(ctx, case):
+    """re-executes the fault of a recorded case on the current tree"""
     import json
-    print(json.dumps(case, indent=1)[:4000])
+    c = case.get('case', case)
+    print(json.dumps({k: v for k, v in case.items() if k != 'case'}, indent=1)[:1500])
+    if 'threads' not in c or 'crash_point' not in c:
+        print(json.dumps(c, indent=1)[:3000])
+        return 0
+
+    def tup(o):
+        return tuple(tup(x) if isinstance(x, list) else (bytes.fromhex(x['hex']) if isinstance(x, dict) and 'hex' in x else x) for x in o)
+    threads = [[tup(o) for o in t] for t in c['threads']]
+    junk = JUNK[c.get('junk_index', 0)]
+    k = c['crash_point']
+    abort = c.get('abort')
+    if c['stream'] == 'sequential':
+        ad = Adapter('disk', dict(codec=c.get('codec', True), chunk=c['chunk']))
+        try:
+            ad.disk.install(junk)
+            if abort:
+                ad.disk.abort_at = k
+                ad.disk.abort_mode = abort if abort in ('exit', 'enospc') else 'exit'
+            else:
+                ad.disk.crash_at = k
+            pos = [0] * len(threads)
+            try:
+                for j, name in c['order']:
+                    o = threads[j][pos[j]]; pos[j] += 1
+                    r = ad.do(o, 'desc')
+                    print('thread', j, o[0], o[1] if o[0] != 'write' else o[3], '->', r)
+                    if ad.disk.aborted:
+                        break
+            except (sf.Crash, gevent.GreenletExit) as e:
+                print('thread', j, o[0], '-> interrupted by', type(e).__name__, 'at effect', k)
+            ad.disk.crash_at = None
+            for d in ad.disk.log[max(0, k - 4):]:
+                print('   effect', d[:3])
+            print('fresh DiskStorage: load/get ->', recover(ad.disk, IDS))
+        finally:
+            ad.close()
+    else:
+        gates = sf.Gates()
+        ad = Adapter('disk', dict(codec=True, chunk=c['chunk']), gates=gates)
+        try:
+            ad.disk.install(junk)
+
+            def body(j):
+                def run():
+                    for o in threads[j]:
+                        ad.do(o, 'desc')
+                return run
+            gs, ex = sf.run_threads([body(j) for j in range(len(threads))], c['schedule'][:k], gates)
+            if abort:
+                gates.enabled = False
+                sf.kill_all(gs)
+            for i, d in ex[max(0, k - 6):]:
+                print('   thread', i, 'effect', d[:3])
+            for d in ad.disk.log[k:]:
+                print('   cleanup effect', d[:3])
+            print('fresh DiskStorage: load/get ->', recover(ad.disk, IDS))
+            if not abort:
+                sf.kill_all(gs)
+        finally:
+            ad.close()
     return 0
